@@ -75,6 +75,7 @@ func (this *minerRefundExecutor) Execute(transaction *types.Transaction, header 
 	refundInfo, ok := refundInfos[refundHeight]
 	if ok {
 		refundInfo.AddRefundInfo(addr, money)
+		refundInfos[refundHeight] = refundInfo // the map holds the list by value
 	} else {
 		refundInfo = types.RefundInfoList{}
 		refundInfo.AddRefundInfo(addr, money)
